@@ -238,26 +238,47 @@ def length_guards(job):
             for order in (2, 4):
                 rule = fd.LogRule(n=n, method=method, order=order)
                 need = rule.rule(2.0).size
-                for k in range(1, need + 2):
-                    seq = [np.ones(1) * 0.1 * i for i in range(k)]
-                    steps = [0.5 ** i for i in range(k)]
+                for c in (1, 2, 3):
+                    for k in range(1, need + 2):
+                        # k evaluations of a function of c elements (one row per step, one column per element)
+                        seq = [np.ones(c) * 0.1 * i for i in range(k)]
+                        steps = [np.ones(c) * 0.5 ** i for i in range(k)]
+                        try:
+                            rule.apply(seq, steps, 2.0)
+                            raised = False
+                        except ValueError:
+                            raised = True
+                        if not job.confirm('too-few-steps guard', raised == (k <= need - 1)):
+                            job.violation('steps', dict(key='C11:too-few-steps-guard', kind='len', m=k, n=need, method=method, c=c, dn=n, order=order))
+                # through the public classes: check_num_steps=False lets the user under-provision
+                if need - 1 < 1:
+                    continue
+                for xv in (1.0, np.array([1.0, 2.0, 3.0])):
                     try:
-                        rule.apply(seq, steps, 2.0)
-                        raised = False
+                        with cm.quiet():
+                            gen = nd.MinStepGenerator(base_step=0.1, num_steps=need - 1, check_num_steps=False, step_nom=1.0)
+                            nd.Derivative(np.exp, step=gen, method=method, n=n, order=order)(xv)
+                        job.violation('steps', dict(key='C11:too-few-steps-returned', kind='len', m=need - 1, n=need, method=method, c=int(np.size(xv)),
+                                                    dn=n, order=order))
                     except ValueError:
-                        raised = True
-                    if not job.confirm('too-few-steps guard', raised == (k <= need - 1)):
-                        job.violation('steps', dict(key='C11:too-few-steps-guard', kind='len', m=k, n=need, method=method))
-                # through the public class: check_num_steps=False lets the user under-provision
+                        job.confirm('Derivative with too few steps raises ValueError', True)
+    for cls in ('Gradient', 'Jacobian', 'Hessdiag'):
+        for method in ('central', 'forward', 'complex'):
+            for order in (2, 4):
+                kw = dict(method=method, order=order)
+                fun = (lambda x: np.sum(np.exp(x))) if cls != 'Jacobian' else (lambda x: np.exp(x))
+                probe = getattr(nd, cls)(fun, **kw)
+                need = probe.fd_rule.rule(2.0).size if hasattr(probe, 'fd_rule') else None
+                if need is None or need - 1 < 1:
+                    continue
                 try:
                     with cm.quiet():
-                        gen = nd.MinStepGenerator(base_step=0.1, num_steps=max(need - 1, 1), check_num_steps=False, step_nom=1.0)
-                        nd.Derivative(np.exp, step=gen, method=method, n=n, order=order)(1.0)
-                    ok = need - 1 < 1 or max(need - 1, 1) > need - 1
-                    if not ok:
-                        job.violation('steps', dict(key='C11:too-few-steps-returned', kind='len', m=need - 1, n=need, method=method))
+                        gen = nd.MinStepGenerator(base_step=0.1, num_steps=need - 1, check_num_steps=False, step_nom=1.0)
+                        getattr(nd, cls)(fun, step=gen, **kw)(np.array([1.0, 2.0, 3.0]))
+                    job.violation('steps', dict(key='C11:too-few-steps-returned:%s' % cls, kind='len', m=need - 1, n=need, method=method, c=3,
+                                                dn=0, order=order, cls=cls))
                 except ValueError:
-                    job.confirm('Derivative with too few steps raises ValueError', True)
+                    job.confirm('%s with too few steps raises ValueError' % cls, True)
 
 
 # --------------------------------------------------------------------------
